@@ -74,7 +74,7 @@ fn scn(name: String, actors: Vec<ActorSpec>, clients: Vec<Program>, tags: &[&str
 }
 
 fn gated(out: Outcome) -> HookSpec {
-    HookSpec { entry_yield: true, steps: vec![], out }
+    HookSpec { entry_yield: true, steps: vec![], out, free: false }
 }
 
 /// Assign fresh message ids to every Send in a program template (templates use id 0).
@@ -320,8 +320,8 @@ fn gen_c03(thorough: bool) -> Vec<Scenario> {
                         _ => Outcome::Ok,
                     });
                     match cause {
-                        Cause::RunErr => a.on_run = vec![HookSpec { entry_yield: false, steps: vec![Step::Yield], out: Outcome::Err(2) }],
-                        Cause::RunPanic => a.on_run = vec![HookSpec { entry_yield: false, steps: vec![Step::Yield], out: Outcome::Panic(2) }],
+                        Cause::RunErr => a.on_run = vec![HookSpec { entry_yield: false, steps: vec![Step::Yield], out: Outcome::Err(2), free: false }],
+                        Cause::RunPanic => a.on_run = vec![HookSpec { entry_yield: false, steps: vec![Step::Yield], out: Outcome::Panic(2), free: false }],
                         _ => {}
                     }
                     a.on_stop = gated(match cause {
@@ -396,10 +396,10 @@ fn gen_c04(thorough: bool) -> Vec<Scenario> {
     let starts = [Outcome::Ok, Outcome::Err(11), Outcome::Panic(12)];
     let runs: Vec<Vec<HookSpec>> = vec![
         vec![],
-        vec![HookSpec { entry_yield: false, steps: vec![Step::Mark(1), Step::Yield], out: Outcome::OkTrue }, HookSpec { entry_yield: false, steps: vec![Step::Yield], out: Outcome::OkFalse }],
-        vec![HookSpec { entry_yield: false, steps: vec![Step::Yield], out: Outcome::Err(21) }],
-        vec![HookSpec { entry_yield: false, steps: vec![Step::Yield], out: Outcome::Panic(22) }],
-        vec![HookSpec { entry_yield: false, steps: vec![Step::Yield], out: Outcome::OkTrue }, HookSpec { entry_yield: false, steps: vec![Step::Yield], out: Outcome::Err(23) }],
+        vec![HookSpec { entry_yield: false, steps: vec![Step::Mark(1), Step::Yield], out: Outcome::OkTrue, free: false }, HookSpec { entry_yield: false, steps: vec![Step::Yield], out: Outcome::OkFalse, free: false }],
+        vec![HookSpec { entry_yield: false, steps: vec![Step::Yield], out: Outcome::Err(21), free: false }],
+        vec![HookSpec { entry_yield: false, steps: vec![Step::Yield], out: Outcome::Panic(22), free: false }],
+        vec![HookSpec { entry_yield: false, steps: vec![Step::Yield], out: Outcome::OkTrue, free: false }, HookSpec { entry_yield: false, steps: vec![Step::Yield], out: Outcome::Err(23), free: false }],
     ];
     let stops = [Outcome::Ok, Outcome::Err(31), Outcome::Panic(32)];
     for start in &starts {
@@ -511,9 +511,9 @@ fn gen_c06(thorough: bool) -> Vec<Scenario> {
                                 Phase::Start => a.on_start = gated(Outcome::Ok),
                                 Phase::RunBody => {
                                     a.on_run = vec![
-                                        HookSpec { entry_yield: false, steps: vec![Step::Mark(1), Step::Yield, Step::Mark(2), Step::Yield, Step::Mark(3)], out: Outcome::OkTrue },
-                                        HookSpec { entry_yield: false, steps: vec![Step::Mark(4), Step::Yield, Step::Mark(5)], out: Outcome::OkTrue },
-                                        HookSpec { entry_yield: false, steps: vec![Step::Mark(6)], out: Outcome::Pend },
+                                        HookSpec { entry_yield: false, steps: vec![Step::Mark(1), Step::Yield, Step::Mark(2), Step::Yield, Step::Mark(3)], out: Outcome::OkTrue, free: false },
+                                        HookSpec { entry_yield: false, steps: vec![Step::Mark(4), Step::Yield, Step::Mark(5)], out: Outcome::OkTrue, free: false },
+                                        HookSpec { entry_yield: false, steps: vec![Step::Mark(6)], out: Outcome::Pend, free: false },
                                     ]
                                 }
                                 _ => {}
@@ -644,12 +644,12 @@ fn gen_c07(thorough: bool) -> Vec<Scenario> {
     };
     let runs: Vec<Vec<HookSpec>> = vec![
         vec![],
-        vec![HookSpec { entry_yield: false, steps: vec![Step::Yield], out: Outcome::OkTrue }, HookSpec { entry_yield: false, steps: vec![], out: Outcome::OkFalse }],
+        vec![HookSpec { entry_yield: false, steps: vec![Step::Yield], out: Outcome::OkTrue, free: false }, HookSpec { entry_yield: false, steps: vec![], out: Outcome::OkFalse, free: false }],
         // an idle handler that never gives up: ticks twice, then waits forever
         vec![
-            HookSpec { entry_yield: false, steps: vec![Step::Sleep(10)], out: Outcome::OkTrue },
-            HookSpec { entry_yield: false, steps: vec![Step::Yield], out: Outcome::OkTrue },
-            HookSpec { entry_yield: false, steps: vec![], out: Outcome::Pend },
+            HookSpec { entry_yield: false, steps: vec![Step::Sleep(10)], out: Outcome::OkTrue, free: false },
+            HookSpec { entry_yield: false, steps: vec![Step::Yield], out: Outcome::OkTrue, free: false },
+            HookSpec { entry_yield: false, steps: vec![], out: Outcome::Pend, free: false },
         ],
     ];
     let maxlen = if thorough { 4 } else { 3 };
@@ -728,19 +728,19 @@ fn gen_c08(thorough: bool) -> Vec<Scenario> {
     let mut scripts: Vec<Vec<HookSpec>> = Vec::new();
     for b1 in &bodies {
         for o1 in &outs {
-            scripts.push(vec![HookSpec { entry_yield: false, steps: b1.clone(), out: o1.clone() }]);
+            scripts.push(vec![HookSpec { entry_yield: false, steps: b1.clone(), out: o1.clone(), free: false }]);
             if *o1 == Outcome::OkTrue {
                 for b2 in bodies.iter().take(if thorough { 4 } else { 2 }) {
                     for o2 in &outs {
                         scripts.push(vec![
-                            HookSpec { entry_yield: false, steps: b1.clone(), out: o1.clone() },
-                            HookSpec { entry_yield: false, steps: b2.clone(), out: o2.clone() },
+                            HookSpec { entry_yield: false, steps: b1.clone(), out: o1.clone(), free: false },
+                            HookSpec { entry_yield: false, steps: b2.clone(), out: o2.clone(), free: false },
                         ]);
                         if *o2 == Outcome::OkTrue && thorough {
                             scripts.push(vec![
-                                HookSpec { entry_yield: false, steps: b1.clone(), out: o1.clone() },
-                                HookSpec { entry_yield: false, steps: b2.clone(), out: o2.clone() },
-                                HookSpec { entry_yield: false, steps: vec![Step::Mark(9)], out: Outcome::OkFalse },
+                                HookSpec { entry_yield: false, steps: b1.clone(), out: o1.clone(), free: false },
+                                HookSpec { entry_yield: false, steps: b2.clone(), out: o2.clone(), free: false },
+                                HookSpec { entry_yield: false, steps: vec![Step::Mark(9)], out: Outcome::OkFalse, free: false },
                             ]);
                         }
                     }
@@ -779,6 +779,49 @@ fn gen_c08(thorough: bool) -> Vec<Scenario> {
             }
         }
     }
+    // free-running variants: wake-ups are delivered by tokio itself, so a message and the event on_run is
+    // waiting for can become ready in the same poll of the actor task
+    for cap in [1usize, 2] {
+        for order in 0..2 {
+            for out2 in [Outcome::OkFalse, Outcome::OkTrue] {
+                let mut ids = Ids(0);
+                let mut a = ActorSpec::plain(cap);
+                a.on_run = vec![
+                    HookSpec { entry_yield: false, steps: vec![Step::Mark(1), Step::WaitSig(0), Step::Mark(2)], out: Outcome::OkTrue, free: true },
+                    HookSpec { entry_yield: false, steps: vec![Step::Mark(3), Step::WaitSig(1), Step::Mark(4)], out: out2.clone(), free: true },
+                    HookSpec { entry_yield: false, steps: vec![Step::Mark(5)], out: Outcome::OkFalse, free: true },
+                ];
+                let t = |ids: &mut Ids| send(SendKind::Tell, 0, MsgSpec::quick(ids.next()));
+                let steps = if order == 0 {
+                    vec![t(&mut ids), Step::Fuse, Step::Signal(0), t(&mut ids), Step::Fuse, Step::Signal(1)]
+                } else {
+                    vec![Step::Signal(0), Step::Fuse, t(&mut ids), Step::Signal(1), Step::Fuse, t(&mut ids)]
+                };
+                n += 1;
+                out.push(scn(format!("c08-{n}-free-onrun-cap{cap}-order{order}-{out2:?}"), vec![a], vec![Program::new(vec![(0, 0)], steps)], &[]));
+            }
+        }
+    }
+    // a client that is woken by on_run just before on_run returns, and sends at once
+    for first in [Outcome::OkFalse, Outcome::Err(6), Outcome::OkTrue] {
+        for free_run in [false, true] {
+            let mut ids = Ids(0);
+            let mut a = ActorSpec::plain(2);
+            a.on_run = vec![
+                HookSpec { entry_yield: false, steps: vec![Step::Mark(1), Step::Yield, Step::Signal(0)], out: first.clone(), free: free_run },
+                HookSpec { entry_yield: false, steps: vec![Step::Mark(2)], out: Outcome::OkFalse, free: free_run },
+            ];
+            let mut c0 = Program::new(
+                vec![(0, 0)],
+                vec![Step::WaitSig(0), send(SendKind::Tell, 0, MsgSpec::quick(ids.next())), send(SendKind::Tell, 0, MsgSpec::quick(ids.next()))],
+            );
+            c0.free = true;
+            c0.auto_yield = false;
+            let c1 = Program::new(vec![(0, 0)], vec![send(SendKind::Tell, 0, MsgSpec::m1(ids.next()))]);
+            n += 1;
+            out.push(scn(format!("c08-{n}-woken-client-{first:?}-free{free_run}"), vec![a], vec![c0, c1], &[]));
+        }
+    }
     out
 }
 
@@ -798,7 +841,7 @@ fn gen_c09(thorough: bool) -> Vec<Scenario> {
                     let mut ids = Ids(0);
                     let mut a = ActorSpec::plain(cap);
                     if parked == 0 {
-                        a.on_start = HookSpec { entry_yield: true, steps: vec![Step::Yield], out: Outcome::Ok };
+                        a.on_start = HookSpec { entry_yield: true, steps: vec![Step::Yield], out: Outcome::Ok, free: false };
                     }
                     let mut progs: Vec<Vec<Step>> = (0..nclients).map(|_| Vec::new()).collect();
                     for i in 0..k {
@@ -820,7 +863,7 @@ fn gen_c09(thorough: bool) -> Vec<Scenario> {
         let mut ids = Ids(0);
         let mut a = ActorSpec::plain(1);
         a.cap = None;
-        a.on_start = HookSpec { entry_yield: true, steps: vec![Step::Yield], out: Outcome::Ok };
+        a.on_start = HookSpec { entry_yield: true, steps: vec![Step::Yield], out: Outcome::Ok, free: false };
         let mut steps = Vec::new();
         for _ in 0..34 {
             steps.push(send(SendKind::Tell, 0, MsgSpec::quick(ids.next())));
@@ -886,7 +929,7 @@ fn gen_c10(thorough: bool) -> Vec<Scenario> {
                                 mb.entry_yield = false;
                                 let mut filler = MsgSpec::quick(ids.next());
                                 filler.entry_yield = false;
-                                clients.push(Program { slots: vec![(0, 0)], steps: vec![send(SendKind::Tell, 0, mb), send(SendKind::Tell, 0, filler)], auto_yield: false });
+                                clients.push(Program { slots: vec![(0, 0)], steps: vec![send(SendKind::Tell, 0, mb), send(SendKind::Tell, 0, filler)], auto_yield: false, free: false });
                             }
                             let body = match nat {
                                 Nat::At(0) => vec![],
@@ -1040,7 +1083,7 @@ fn gen_c11(thorough: bool) -> Vec<Scenario> {
                 _ => Outcome::Ok,
             });
             if let Cause::RunErr = cause {
-                a.on_run = vec![HookSpec { entry_yield: false, steps: vec![Step::Yield], out: Outcome::Err(2) }];
+                a.on_run = vec![HookSpec { entry_yield: false, steps: vec![Step::Yield], out: Outcome::Err(2), free: false }];
             }
             a.on_stop = gated(Outcome::Ok);
             let mut m = MsgSpec::m1(ids.next()).steps(vec![Step::Yield]);
@@ -1104,6 +1147,8 @@ fn gen_c13(thorough: bool) -> Vec<Scenario> {
         DeadKill,
         DeadPanic,
         DeadStartErr,
+        FullThenKill,
+        FullThenPanic,
     }
     let ops: Vec<(SendKind, MsgKind)> = vec![
         (SendKind::Tell, MsgKind::M1),
@@ -1114,7 +1159,7 @@ fn gen_c13(thorough: bool) -> Vec<Scenario> {
         (SendKind::Ask, MsgKind::M2),
         (SendKind::Tell, MsgKind::MR),
     ];
-    for state in [State::Live, State::Parked, State::Full, State::Stopping, State::DeadStop, State::DeadKill, State::DeadPanic, State::DeadStartErr] {
+    for state in [State::Live, State::Parked, State::Full, State::Stopping, State::DeadStop, State::DeadKill, State::DeadPanic, State::DeadStartErr, State::FullThenKill, State::FullThenPanic] {
         for (i1, (k1, mk1)) in ops.iter().enumerate() {
             for (k2, mk2) in ops.iter().skip(if thorough { 0 } else { i1 }) {
                 for erased in [false, true] {
@@ -1145,6 +1190,16 @@ fn gen_c13(thorough: bool) -> Vec<Scenario> {
                             let mut m = MsgSpec::m1(ids.next()).steps(vec![Step::Sleep(20)]);
                             m.entry_yield = false;
                             vec![send(SendKind::Tell, 0, m), Step::Stop(0)]
+                        }
+                        State::FullThenKill => {
+                            let mut m = MsgSpec::m1(ids.next()).steps(vec![Step::Sleep(20)]);
+                            m.entry_yield = false;
+                            vec![send(SendKind::Tell, 0, m), send(SendKind::Tell, 0, MsgSpec::quick(ids.next())), Step::Sleep(5), Step::Kill(0)]
+                        }
+                        State::FullThenPanic => {
+                            let mut m = MsgSpec::m1(ids.next()).steps(vec![Step::Sleep(5)]).out(Outcome::Panic(8));
+                            m.entry_yield = false;
+                            vec![send(SendKind::Tell, 0, m), send(SendKind::Tell, 0, MsgSpec::quick(ids.next()))]
                         }
                         State::DeadStop => vec![Step::Stop(0)],
                         State::DeadKill => vec![Step::Kill(0)],
